@@ -25,6 +25,16 @@ Instruction nodes:
   Ins(op, imm=None, kids=())               plain instruction; kids are its operand trees
   Blk(kind, bt, body)                      kind "block"|"loop"; bt None|"i32"|...
   If(bt, cond, then, els=None)             cond = list of nodes producing the i32
+Extensions (second generation, all optional; a module that uses none of them encodes exactly as before):
+  Module.customs = [(slot, name, payload)]   custom sections; slot 0..12 = position in SECTION_ORDER (0 before the type section,
+                                             12 after the data section), emitted also when the neighbouring standard sections are absent
+  Module.datacount = True|int                data-count section (section 12, between elem and code); True = len(datas)
+  datas entries (offset, bytes): offset int (active, i32.const), an Ins (active, that constant expression) or None (passive)
+  elems entries (offset, items): offset int | Ins (active), None (passive), "declare" (declarative); items = function indices, or
+                                 None for ref.null (then the segment is written with element expressions)
+  bulk-memory / reference-types instructions: memory.init/data.drop (imm data index), memory.copy, memory.fill, table.init/elem.drop
+  (imm elem index), table.copy/grow/size/fill/get/set (table 0), ref.null (imm "func"|"extern"), ref.func (imm func index),
+  ref.is_null, select.t (imm value type: the typed select); block types may be a type index (int) for multi-value blocks.
 Immediates: local/global/func/label index (int); call_indirect: type index; br_table:
 (list_of_labels, default); consts: signed int for i32/i64, *bit pattern* (int) for
 f32/f64; loads/stores: (align_log2, offset).
@@ -36,7 +46,7 @@ import itertools
 
 I32, I64, F32, F64 = "i32", "i64", "f32", "f64"
 VTS = (I32, I64, F32, F64)
-VT_BYTE = {I32: 0x7F, I64: 0x7E, F32: 0x7D, F64: 0x7C}
+VT_BYTE = {I32: 0x7F, I64: 0x7E, F32: 0x7D, F64: 0x7C, "funcref": 0x70, "externref": 0x6F}
 PAGE = 65536
 
 
@@ -90,6 +100,8 @@ class Module:
         self.start = start
         self.elems = list(elems)
         self.datas = list(datas)
+        self.customs = []
+        self.datacount = None
 
     def n_imported(self, kind):
         return sum(1 for i in self.imports if i.kind == kind)
@@ -242,7 +254,14 @@ def sleb(v):
 # ---------------------------------------------------------------- binary encoder
 
 def _bt(bt):
+    if isinstance(bt, int):
+        return sleb(bt)          # type index (s33)
     return b"\x40" if bt is None else bytes([VT_BYTE[bt]])
+
+
+# 0xFC-prefixed bulk-memory / table instructions: name -> (sub-opcode, immediates layout)
+FC_OPS = {"memory.init": (8, "x0"), "data.drop": (9, "x"), "memory.copy": (10, "00"), "memory.fill": (11, "0"), "table.init": (12, "x0"),
+          "elem.drop": (13, "x"), "table.copy": (14, "00"), "table.grow": (15, "0"), "table.size": (16, "0"), "table.fill": (17, "0")}
 
 
 def _enc_ins(n, out, marks=None):
@@ -314,6 +333,24 @@ def _enc_ins0(n, out, marks):
         for lab in labels:
             out += uleb(lab)
         out += uleb(default)
+    elif op in FC_OPS:
+        sub, layout = FC_OPS[op]
+        out.append(0xFC)
+        out += uleb(sub)
+        for c in layout:
+            out += uleb(n.imm) if c == "x" else b"\x00"
+    elif op == "table.get" or op == "table.set":
+        out.append(0x25 if op == "table.get" else 0x26)
+        out += uleb(0)
+    elif op == "ref.null":
+        out += bytes([0xD0, 0x70 if n.imm == "func" else 0x6F])
+    elif op == "ref.is_null":
+        out.append(0xD1)
+    elif op == "ref.func":
+        out.append(0xD2)
+        out += uleb(n.imm)
+    elif op == "select.t":
+        out += bytes([0x1C, 0x01, VT_BYTE[n.imm]])
     else:
         raise ValueError("unknown op " + op)
 
@@ -346,12 +383,38 @@ def _expr(nodes):
     return bytes(out)
 
 
-def encode(m):
-    """Canonical binary of module AST m."""
-    out = bytearray(b"\x00asm\x01\x00\x00\x00")
+SECTION_ORDER = (1, 2, 3, 4, 5, 6, 7, 8, 9, 12, 10, 11)       # canonical order of the standard sections; custom slot k = before SECTION_ORDER[k]
+N_SLOTS = len(SECTION_ORDER) + 1
+
+
+def _offset_expr(off):
+    return _expr([off if isinstance(off, Ins) else Ins("i32.const", off)])
+
+
+def _enc_elem(off, items):
+    exprs = any(f is None for f in items)
+    if exprs:
+        vec = _vec([_expr([Ins("ref.null", "func") if f is None else Ins("ref.func", f)]) for f in items])
+    else:
+        vec = _vec([uleb(f) for f in items])
+    if off is None:
+        return (b"\x05\x70" if exprs else b"\x01\x00") + vec
+    if off == "declare":
+        return (b"\x07\x70" if exprs else b"\x03\x00") + vec
+    return (b"\x04" if exprs else b"\x00") + _offset_expr(off) + vec
+
+
+def _enc_data(off, d):
+    if off is None:
+        return b"\x01" + uleb(len(d)) + d
+    return b"\x00" + _offset_expr(off) + uleb(len(d)) + d
+
+
+def section_payloads(m):
+    """{section id: payload} of the standard sections present in module AST m."""
+    sec = {}
     if m.types:
-        out += _section(1, _vec([b"\x60" + _vec([bytes([VT_BYTE[p]]) for p in t.params]) +
-                                 _vec([bytes([VT_BYTE[r]]) for r in t.results]) for t in m.types]))
+        sec[1] = _vec([b"\x60" + _vec([bytes([VT_BYTE[p]]) for p in t.params]) + _vec([bytes([VT_BYTE[r]]) for r in t.results]) for t in m.types])
     if m.imports:
         items = []
         for i in m.imports:
@@ -365,22 +428,25 @@ def encode(m):
             else:
                 b += b"\x03" + bytes([VT_BYTE[i.desc[0]], 1 if i.desc[1] else 0])
             items.append(b)
-        out += _section(2, _vec(items))
+        sec[2] = _vec(items)
     if m.funcs:
-        out += _section(3, _vec([uleb(f.ti) for f in m.funcs]))
+        sec[3] = _vec([uleb(f.ti) for f in m.funcs])
     if m.table is not None:
-        out += _section(4, _vec([b"\x70" + _limits(m.table)]))
+        sec[4] = _vec([b"\x70" + _limits(m.table)])
     if m.mem is not None:
-        out += _section(5, _vec([_limits(m.mem)]))
+        sec[5] = _vec([_limits(m.mem)])
     if m.globs:
-        out += _section(6, _vec([bytes([VT_BYTE[g.vt], 1 if g.mut else 0]) + _expr([g.init]) for g in m.globs]))
+        sec[6] = _vec([bytes([VT_BYTE[g.vt], 1 if g.mut else 0]) + _expr([g.init]) for g in m.globs])
     if m.exports:
         kinds = {"func": 0, "table": 1, "memory": 2, "global": 3}
-        out += _section(7, _vec([_name(n) + bytes([kinds[k]]) + uleb(i) for n, k, i in m.exports]))
+        sec[7] = _vec([_name(n) + bytes([kinds[k]]) + uleb(i) for n, k, i in m.exports])
     if m.start is not None:
-        out += _section(8, uleb(m.start))
+        sec[8] = uleb(m.start)
     if m.elems:
-        out += _section(9, _vec([b"\x00" + _expr([Ins("i32.const", off)]) + _vec([uleb(f) for f in fs]) for off, fs in m.elems]))
+        sec[9] = _vec([_enc_elem(off, fs) for off, fs in m.elems])
+    dc = getattr(m, "datacount", None)
+    if dc is not None and dc is not False:
+        sec[12] = uleb(len(m.datas) if dc is True else dc)
     if m.funcs:
         bodies = []
         for f in m.funcs:
@@ -392,9 +458,27 @@ def encode(m):
                     runs.append([1, vt])
             b = _vec([uleb(c) + bytes([VT_BYTE[vt]]) for c, vt in runs]) + _expr(f.body)
             bodies.append(uleb(len(b)) + b)
-        out += _section(10, _vec(bodies))
+        sec[10] = _vec(bodies)
     if m.datas:
-        out += _section(11, _vec([b"\x00" + _expr([Ins("i32.const", off)]) + uleb(len(d)) + d for off, d in m.datas]))
+        sec[11] = _vec([_enc_data(off, d) for off, d in m.datas])
+    return sec
+
+
+def custom_section(name, payload):
+    return _section(0, _name(name) + payload)
+
+
+def encode(m):
+    """Canonical binary of module AST m."""
+    out = bytearray(b"\x00asm\x01\x00\x00\x00")
+    sec = section_payloads(m)
+    customs = list(getattr(m, "customs", ()) or ())
+    for k in range(N_SLOTS):
+        for slot, name, payload in customs:
+            if slot == k:
+                out += custom_section(name, payload)
+        if k < len(SECTION_ORDER) and SECTION_ORDER[k] in sec:
+            out += _section(SECTION_ORDER[k], sec[SECTION_ORDER[k]])
     return bytes(out)
 
 
@@ -507,9 +591,31 @@ class _Wat:
             if n.imm[0] != natural_align(op):
                 s += " align=%d" % (1 << n.imm[0])
             return s
+        if op in ("memory.init", "data.drop", "elem.drop"):
+            return " %d" % n.imm
+        if op == "table.init":
+            # flat: the abbreviation without table index; other styles: explicit table index
+            return (" %d" % n.imm) if self.style == "flat" else (" 0 %d" % n.imm)
+        if op in ("table.get", "table.set", "table.grow", "table.size", "table.fill"):
+            return " 0" if self.style == "flat" else ""
+        if op == "table.copy":
+            return " 0 0" if self.style == "flat" else ""
+        if op == "ref.null":
+            return " " + n.imm
+        if op == "ref.func":
+            return " " + self.fid(n.imm)
+        if op == "select.t":
+            return " (result %s)" % n.imm
         return ""
 
+    def op_text(self, n):
+        return "select" if n.op == "select.t" else n.op
+
     def btype(self, bt):
+        if isinstance(bt, int):
+            if self.style == "flat":
+                return " (type %d)" % bt
+            return " (type %s)%s" % (self.tid(bt), self.sig(self.m.types[bt])) if self.style == "folded" else self.sig(self.m.types[bt])
         return "" if bt is None else " (result %s)" % bt
 
     def push_label(self):
@@ -547,7 +653,7 @@ class _Wat:
         else:
             for k in n.kids:
                 self.flat(k, ind)
-            self.lines.append(pad + n.op + self.imm_text(n))
+            self.lines.append(pad + self.op_text(n) + self.imm_text(n))
 
     # -- folded
     def fold(self, n, ind):
@@ -579,7 +685,7 @@ class _Wat:
             self.labels.pop()
             self.lines.append(pad + ")")
         else:
-            head = pad + "(" + n.op + self.imm_text(n)
+            head = pad + "(" + self.op_text(n) + self.imm_text(n)
             if not n.kids:
                 self.lines.append(head + ")")
             else:
@@ -594,7 +700,7 @@ class _Wat:
 
     def one(self, node):
         """A single instruction as one-line text (constant expressions)."""
-        return "(" + node.op + self.imm_text(node) + ")"
+        return "(" + self.op_text(node) + self.imm_text(node) + ")"
 
     def render(self):
         m, L = self.m, self.lines
@@ -675,7 +781,16 @@ class _Wat:
         if m.start is not None:
             L.append("  (start %s)" % self.fid(m.start))
         for off, fs in m.elems:
-            if self.style == "flat":
+            if off is None or off == "declare" or isinstance(off, Ins) or any(f is None for f in fs):
+                if any(f is None for f in fs):
+                    items = "funcref " + " ".join(("(ref.null func)" if f is None else "(ref.func %s)" % self.fid(f)) if self.style != "folded" else
+                                                  ("(item ref.null func)" if f is None else "(item (ref.func %s))" % self.fid(f)) for f in fs)
+                else:
+                    items = ("func " + " ".join(self.fid(f) for f in fs)).strip()
+                mode = "" if off is None else "declare " if off == "declare" else \
+                    (("(offset %s) " if self.style == "folded" else "%s ") % self.one(off if isinstance(off, Ins) else Ins("i32.const", off)))
+                L.append("  (elem %s%s)" % (mode, items))
+            elif self.style == "flat":
                 L.append("  (elem (i32.const %d) %s)" % (off, " ".join(self.fid(f) for f in fs)))
             elif self.style == "folded":
                 L.append("  (elem (offset (i32.const %d)) func %s)" % (off, " ".join(self.fid(f) for f in fs)))
@@ -701,7 +816,11 @@ class _Wat:
             self.body(f.body, 2)
             L.append("  )")
         for off, d in ([] if self.mem_abbrev else m.datas):
-            if self.style == "folded":
+            if off is None:
+                L.append("  (data %s)" % data_text(d))
+            elif isinstance(off, Ins):
+                L.append(("  (data (offset %s) %s)" if self.style == "folded" else "  (data %s %s)") % (self.one(off), data_text(d)))
+            elif self.style == "folded":
                 L.append("  (data (offset (i32.const %d)) %s)" % (off, data_text(d)))
             else:
                 L.append("  (data (i32.const %d) %s)" % (off, data_text(d)))
@@ -712,10 +831,10 @@ class _Wat:
 def _uses_call_indirect(nodes):
     for n in nodes:
         if isinstance(n, Blk):
-            if _uses_call_indirect(n.body):
+            if isinstance(n.bt, int) or _uses_call_indirect(n.body):
                 return True
         elif isinstance(n, If):
-            if _uses_call_indirect(n.cond) or _uses_call_indirect(n.then) or (n.els is not None and _uses_call_indirect(n.els)):
+            if isinstance(n.bt, int) or _uses_call_indirect(n.cond) or _uses_call_indirect(n.then) or (n.els is not None and _uses_call_indirect(n.els)):
                 return True
         else:
             if n.op == "call_indirect" or _uses_call_indirect(n.kids):
@@ -813,6 +932,7 @@ def for_style(m, style):
     rank = {k: i for i, k in enumerate(order)}
     exports = sorted(m.exports, key=lambda e: rank[(e[1], e[2])])      # stable: same item keeps its relative order
     m2 = Module(m.types, m.imports, m.funcs, m.table, m.mem, m.globs, exports, m.start, m.elems, m.datas)
+    m2.customs, m2.datacount = list(getattr(m, "customs", ())), getattr(m, "datacount", None)
     return m2
 
 
@@ -937,6 +1057,8 @@ def module_of_funcs(funcs, extra=None):
                exports=[("e%d" % i, "func", nf + i) for i in range(len(fs)) if i not in extra.get("hidden", ())] + list(extra.get("exports", ())),
                start=extra.get("start"), elems=extra.get("elems", ()), datas=extra.get("datas", ()))
     m.type_index = index
+    m.customs = list(extra.get("customs", ()))
+    m.datacount = extra.get("datacount")
     return m
 
 
